@@ -246,6 +246,8 @@ func asm14RealExec(c *Ctx, op string) {
 		"w4": {d(""), fl("file4", "four"), Entry{Name: "shared", Kind: 'd', Perms: 02775, Uid: 7, Gid: 7, Sec: 1e9}},
 		// w5 is requested with an altering unpack filter (owner and mtime forced): it is shelved under the filtered id
 		"w5": {d(""), fl("file5", "five"), d("d5"), fl("d5/inner5", "i5")},
+		// w7 carries a two-hop chain: `hop` -> `hop2` (relative, no dots), `hop2` -> the outside (absolute)
+		"w7": {d(""), fl("file7", "seven"), ln("hop", "hop2"), ln("hop2", sandboxOutside), ln("rel", "d"), d("d")},
 		// w6 is an empty fileset: one directory with properties of its own, nothing in it
 		"w6": {Entry{Name: "", Kind: 'd', Perms: 0750, Uid: 4000, Gid: 5000, Sec: 1.45e9}},
 	}
@@ -260,6 +262,14 @@ func asm14RealExec(c *Ctx, op string) {
 	ids := map[string]api.WareID{}
 	for k, v := range filesets {
 		ids[k] = mk(k, v)
+	}
+	// w8 carries a two-hop chain into the cache: `lib` -> `jump`, `jump` -> the shelf of w0 (an absolute path)
+	shelfOf := func(w api.WareID) string {
+		return filepath.Join(base, "cache", "tar", "fileset", w.Hash[0:3], w.Hash[3:6], w.Hash)
+	}
+	if ids["w0"].Hash != "" {
+		filesets["w8"] = Fileset{d(""), fl("file8", "eight"), ln("lib", "jump"), ln("jump", shelfOf(ids["w0"]))}
+		ids["w8"] = mk("w8", filesets["w8"])
 	}
 	host := filepath.Join(base, "hostdir")
 	if caseCounter%2 == 0 { // a colon is an ordinary byte in a path; the mount spec is "<mode>:<path>"
@@ -477,7 +487,7 @@ func asm14RealExec(c *Ctx, op string) {
 				}
 				continue
 			}
-			marker := map[string]string{"w0": "file0", "w1": "file1", "w2": "file2", "w3": "file3", "w4": "file4", "w5": "file5", "ro": "hostfile", "rw": "hostfile"}[a.kind]
+			marker := map[string]string{"w0": "file0", "w1": "file1", "w2": "file2", "w3": "file3", "w4": "file4", "w5": "file5", "w7": "file7", "w8": "file8", "ro": "hostfile", "rw": "hostfile"}[a.kind]
 			p := strings.TrimSuffix(a.path, "/") + "/" + marker
 			covered := false
 			for _, b := range ins {
@@ -553,6 +563,18 @@ func asm14RealExec(c *Ctx, op string) {
 		c.PropFail("shelf-changed", "a cache shelf changed after writes inside the writable host mounts of an assembly: "+firstDiff(shelves0, shelves1), op)
 	}
 	os.Remove(filepath.Join(host, "zz-user-write"))
+	// whatever the assemblies did: every shelf in the cache holds exactly the fileset of its ware
+	for k, w := range ids {
+		if w.Hash == "" || k == "w5" {
+			continue
+		}
+		if sn, e := Snapshot(shelfOf(w)); e == nil {
+			want := truncateForFormat(filesets[k])
+			if sn.Digest(true) != want.Digest(true) {
+				c.PropFail("shelf-changed", fmt.Sprintf("after the assemblies the cache shelf of ware %s no longer holds its fileset: %s", k, DiffFilesets(want, sn, true)), op)
+			}
+		}
+	}
 	c.H("real:" + strings.Fields(res0)[0] + ":" + wantInvalid)
 	c.EmitR(op, "skip", "skip")
 	c.Distinct(op)
@@ -726,6 +748,8 @@ func asm14Engine(c *Ctx) {
 		// a symlink higher up the parent chain whose remaining chain exists behind the link (relative / absolute, re-rooted)
 		"/=w1,/lnk/deep/x=w0", "/=w1,/lnk/deep/er/x=w0", "/=w2,/abs/osub/x=w0", "/a=w1,/a/lnk/deep/x=w0", "/=w1,/lnk/deep/x=ro",
 		"/=w5", "/=w0,/d/x=w5", "/a=w5,/a/d5/y=w0,/b=w5",
+		"/=w8,/x=w0,/lib/plug=w5", "/=w8,/x=w0,/lib/d/plug=w1", "/=w8,/lib/plug=w0",
+		"/=w7,/hop/x=w0", "/=w7,/hop/osub/y=w0", "/=w7,/rel/x=w0", "/a=w7,/a/hop/x=rw", "/=w7,/hop2/x=w5",
 		"/=w0,/d=w6", "/=w1,/d=w6,/d/deep/z=w0", "/a=w5,/a/d5=w6", "/=w6", "/x/y=w6",
 		"/=w1,/lnk=w0", "/=w1,/lnk=ro", "/=w1,/lnk=rw", "/=w2,/abs=w0", "/=w2,/abs=rw", "/=w3,/up=ro", "/a=w1,/a/lnk=rw", "/a=w2,/a/abs=ro",
 	}
